@@ -71,7 +71,7 @@ class Initializer:
         positions = []
 
         for value_ in value_list:
-            pos = self.conv.value2position(list(value_.values()))
+            pos = self.conv.value2position(self.conv.para2value(value_))
             positions.append(pos)
 
         positions_constr = []
